@@ -181,73 +181,11 @@ func runC03(c *Check) {
 				}
 				continue
 			}
-			target := nodeSet([]*Node{n})
-			facts := g.FactsAt(target, 5)
-			eq := NewEqClasses(facts)
 			rule := "C03-R1"
 			if si.kind == "data" {
 				rule = "C03-R2"
 			}
-			var key string
-			var verified, bound bool
-			var genesisClass []string
-			evalFor := func(is string) (bool, bool, []string) {
-				key := is + ".Signer.PubKey"
-				// verification
-				verified := false
-				for _, v := range verifyFacts(facts) {
-					if len(v.Args) < 3 {
-						continue
-					}
-					okKey := v.Args[0].String() == key
-					okSig := v.Args[2].String() == is+".Signature"
-					msg := v.Args[1].String()
-					okMsg := false
-					if si.kind == "header" {
-						okMsg = strings.Contains(msg, is+".Header") || p.DeepContains(v.Args[1], func(t *Term) bool { return t.Op == "field" && t.String() == is+".Header" }, 2)
-					} else {
-						okMsg = strings.Contains(msg, "MarshalBinary("+is+".Data)") || p.DeepContains(v.Args[1], func(t *Term) bool {
-							return strings.HasSuffix(t.Name, "MarshalBinary") && len(t.Args) > 0 && t.Args[0].String() == is+".Data"
-						}, 2)
-					}
-					if okKey && okSig && okMsg {
-						verified = true
-					}
-				}
-				// binding of the verifying key to the genesis proposer address
-				bound := false
-				var genesisClass []string
-				for k := range eq.parent {
-					if strings.HasSuffix(k, ".genesis.ProposerAddress") {
-						genesisClass = eq.Class(k)
-						for _, mbr := range genesisClass {
-							if isKeyAddressOf(mbr, key) {
-								bound = true
-							}
-						}
-					}
-				}
-				return verified, bound, genesisClass
-			}
-			// the item as named at the sink, or — when a repository helper decoded and admitted it and
-			// handed it back — the value that helper returns on its accepting paths
-			cands := []string{is}
-			for _, alt := range p.Alternatives(si.item, 2) {
-				if as := alt.String(); as != is && alt.Op != "const" {
-					cands = append(cands, as)
-				}
-			}
-			for _, cand := range cands {
-				v, b, gc := evalFor(cand)
-				if cand == is || (v && b) {
-					verified, bound, genesisClass = v, b, gc
-					key = cand + ".Signer.PubKey"
-				}
-				if v && b {
-					is = cand
-					break
-				}
-			}
+			verified, bound, is, key, facts, genesisClass := sinkAdmission(p, g, n, si)
 			switch {
 			case verified && bound:
 				c.OK(rule, inst, fn, pos, "admission entails Verify("+key+", …) and KeyAddress("+key+") = genesis.ProposerAddress", true)
@@ -401,4 +339,73 @@ func ruleForeignKeyNilChecked(c *Check, p *Prog, depth int) {
 	if n < 3 {
 		c.Unk(rule, "anchor-count", "", "", fmt.Sprintf("anchor lost: only %d invocations on a decoded item's signer key found in the examining loops", n))
 	}
+}
+
+// sinkAdmission: what the facts on every path to sink n entail for the item that reaches it —
+// verified: its signature was verified under its own signer key over its own payload; bound: that
+// key's address equals the genesis proposer address. is is the rendering of the item under which
+// both hold (the item as named at the sink, or the value a decoding helper handed back).
+func sinkAdmission(p *Prog, g *Graph, n *Node, si *sinkInfo) (verified, bound bool, is, key string, facts FactSet, genesisClass []string) {
+	is = si.item.String()
+	target := nodeSet([]*Node{n})
+	facts = g.FactsAt(target, 5)
+	eq := NewEqClasses(facts)
+	evalFor := func(is string) (bool, bool, []string) {
+		key := is + ".Signer.PubKey"
+		// verification
+		verified := false
+		for _, v := range verifyFacts(facts) {
+			if len(v.Args) < 3 {
+				continue
+			}
+			okKey := v.Args[0].String() == key
+			okSig := v.Args[2].String() == is+".Signature"
+			msg := v.Args[1].String()
+			okMsg := false
+			if si.kind == "header" {
+				okMsg = strings.Contains(msg, is+".Header") || p.DeepContains(v.Args[1], func(t *Term) bool { return t.Op == "field" && t.String() == is+".Header" }, 2)
+			} else {
+				okMsg = strings.Contains(msg, "MarshalBinary("+is+".Data)") || p.DeepContains(v.Args[1], func(t *Term) bool {
+					return strings.HasSuffix(t.Name, "MarshalBinary") && len(t.Args) > 0 && t.Args[0].String() == is+".Data"
+				}, 2)
+			}
+			if okKey && okSig && okMsg {
+				verified = true
+			}
+		}
+		// binding of the verifying key to the genesis proposer address
+		bound := false
+		var genesisClass []string
+		for k := range eq.parent {
+			if strings.HasSuffix(k, ".genesis.ProposerAddress") {
+				genesisClass = eq.Class(k)
+				for _, mbr := range genesisClass {
+					if isKeyAddressOf(mbr, key) {
+						bound = true
+					}
+				}
+			}
+		}
+		return verified, bound, genesisClass
+	}
+	// the item as named at the sink, or — when a repository helper decoded and admitted it and
+	// handed it back — the value that helper returns on its accepting paths
+	cands := []string{is}
+	for _, alt := range p.Alternatives(si.item, 2) {
+		if as := alt.String(); as != is && alt.Op != "const" {
+			cands = append(cands, as)
+		}
+	}
+	for _, cand := range cands {
+		v, b, gc := evalFor(cand)
+		if cand == is || (v && b) {
+			verified, bound, genesisClass = v, b, gc
+			key = cand + ".Signer.PubKey"
+		}
+		if v && b {
+			is = cand
+			break
+		}
+	}
+	return verified, bound, is, key, facts, genesisClass
 }
